@@ -101,6 +101,11 @@ CLAIMED["C18"]["text"] += ' The pod template also references unknown reserved-pr
 CLAIMED["C06"]["text"] += ' Includes a limit-1 scenario with a preemption point between the decisions for two queued Jobs.'
 CLAIMED["C07"]["text"] += " The clock also visits the instant 400 ms before every pending startAfter (a sibling Job's event causes a sync then)."
 CLAIMED["C13"]["text"] += " Includes a Job submitted with somebody else's finalizer that is released after deletion."
+CLAIMED["C04"]["text"] += ' Every case also carries a JobConfig of the same name in another namespace (its own catch-up budget).'
+CLAIMED["C07"]["text"] += ' A Job that is not yet due must not be refused either (Forbid with a future startAfter at the limit).'
+CLAIMED["C15"]["text"] += ' Includes a scenario in which every deletion reaches the handlers as a DeletedFinalStateUnknown tombstone.'
+CLAIMED["C19"]["text"] += ' The update sequences include Secrets and ConfigMaps of other names in the same namespace (must be ignored).'
+CLAIMED["C20"]["text"] += ' Includes the same call failing twice in a row after a kill.'
 CLAIMED["C04"]["note"] = "A crash before the first-ever schedule time was recorded loses that time by design (never scheduled => not back-scheduled); counted in the evidence, not reported."
 PENDING_REASON = "check not built yet in this session (planned, see DESIGN.md section 4)"
 
